@@ -417,3 +417,106 @@ func ruleSER1(c *Ctx) {
 	}
 	c.Notes = append(c.Notes, fmt.Sprintf("SER-1 compared %d pairs, %d primitive call sites", len(pairs), nprim))
 }
+
+func init() {
+	register("SER-10", "integers cross the stream without a narrowing conversion on either side", 4, ruleSER10)
+}
+
+// SER-10: every Int primitive carries a field through `uint64(x)` on the way out and `T(v)` on the way in. A further
+// conversion through a narrower or differently signed type on either side loses information (a negative salience written
+// as uint64(uint32(s)) comes back as 2^32+s).
+func ruleSER10(c *Ctx) {
+	p := c.P
+	wide := func(t types.Type) bool {
+		b, ok := t.Underlying().(*types.Basic)
+		if !ok || b.Info()&types.IsInteger == 0 {
+			return false
+		}
+		switch b.Kind() {
+		case types.Int64, types.Uint64, types.Int, types.Uint, types.Uintptr:
+			return true
+		}
+		return false
+	}
+	n := 0
+	for _, mt := range append(c.metaTypes(), "Catalog") {
+		wname, rname := "WriteMetaTo", "ReadMetaFrom"
+		if mt == "Catalog" {
+			wname, rname = "WriteCatalogToWriter", "ReadCatalogFromReader"
+		}
+		w, r := p.Method("ast", mt, wname), p.Method("ast", mt, rname)
+		if w == nil || r == nil {
+			continue
+		}
+		// write side: argument of WriteIntToWriter
+		for _, ci := range callsIn(w) {
+			call, ok := ci.(*ssa.Call)
+			if !ok || call.Call.StaticCallee() == nil || call.Call.StaticCallee().Name() != "WriteIntToWriter" {
+				continue
+			}
+			n++
+			var chain []string
+			v := call.Call.Args[1]
+			okChain := true
+			for {
+				cv, isConv := v.(*ssa.Convert)
+				if !isConv {
+					break
+				}
+				chain = append(chain, cv.X.Type().String()+"->"+cv.Type().String())
+				// every intermediate type must be 64-bit wide, except the source's own type at the bottom of the chain
+				if _, more := cv.X.(*ssa.Convert); more && !wide(cv.X.Type()) {
+					okChain = false
+				}
+				v = cv.X
+			}
+			c.Check(okChain, fmt.Sprintf("%s.%s / integer %s written without narrowing", mt, wname, writeDesc(call.Call.Args[1], ssa.Value(receiver(w)), nil, 0)), p.InstrPos(call), strings.Join(chain, " "), "the value passes through a narrower type on its way into the stream ("+strings.Join(chain, ", ")+"): negative or large values change")
+		}
+		// read side: result of ReadIntFromReader -> conversions -> field
+		for _, ci := range callsIn(r) {
+			call, ok := ci.(*ssa.Call)
+			if !ok || call.Call.StaticCallee() == nil || call.Call.StaticCallee().Name() != "ReadIntFromReader" {
+				continue
+			}
+			for _, res := range resultValues(call, 0) {
+				var bad []string
+				var walk func(v ssa.Value, depth int, viaNarrow bool)
+				walk = func(v ssa.Value, depth int, viaNarrow bool) {
+					if depth > 4 || v.Referrers() == nil {
+						return
+					}
+					for _, ref := range *v.Referrers() {
+						switch x := ref.(type) {
+						case *ssa.Convert:
+							walk(x, depth+1, viaNarrow || (!wide(x.Type()) && hasConvertUser(x)))
+						case *ssa.Store:
+							if _, isField := x.Addr.(*ssa.FieldAddr); isField && viaNarrow {
+								bad = append(bad, p.InstrPos(x))
+							}
+						}
+					}
+				}
+				walk(res, 0, false)
+				if len(bad) > 0 {
+					c.Fail(fmt.Sprintf("%s.%s / integer read without narrowing", mt, rname), bad[0], "a value read from the stream is narrowed before it is converted to the field's type")
+				}
+			}
+		}
+	}
+	if n == 0 {
+		c.Fail("serializer / integer primitives", "ast/Serializer.go", "no WriteIntToWriter call found (anchor lost)")
+	}
+}
+
+// hasConvertUser: the converted value is converted again (it is an intermediate step, not the field's final type).
+func hasConvertUser(v ssa.Value) bool {
+	if v.Referrers() == nil {
+		return false
+	}
+	for _, r := range *v.Referrers() {
+		if _, ok := r.(*ssa.Convert); ok {
+			return true
+		}
+	}
+	return false
+}
